@@ -42,7 +42,10 @@ def Op.isAddTables : Op → Bool
 
 structure StepFacts (s s' : Sys) (op : Op) (r : Resp) : Prop where
   inv : Inv s'
-  ack : ∀ l c, ackOf s op r = some (l, c) → s.disk.root = l ∧ s'.disk.root = c
+  ack : ∀ l c, ackOf s op r = some (l, c) →
+    s'.disk.root = c ∧ (s.disk.root = l ∨ (s.disk.root = c ∧ s'.disk.manifest = s.disk.manifest))
+  strict : ∀ l c i p, ackOf s op r = some (l, c) → op = .cresume i → (s.hs i).pc = some p →
+    s.disk.lock ≠ p.new.lock → s.disk.root = l
   noack : ackOf s op r = none → s'.disk.root = s.disk.root
   manifest : ackOf s op r = none → op.isAddTables = false → s'.disk.manifest = s.disk.manifest
 
@@ -62,10 +65,10 @@ theorem Inv.set {s : Sys} (hi : Inv s) (i : Nat) (h' : Handle) (hu : h'.upstream
 theorem facts_same_disk {s : Sys} (hi : Inv s) (i : Nat) (h' : Handle) (op : Op) (r : Resp) (hu : h'.upstream.WF)
     (hp : ∀ p, h'.pc = some p → p.new.WF ∧ p.new.lock ≠ none ∧ p.new.root = p.cur ∧ h'.upstream.root = p.last)
     (ha : ackOf s op r = none) : StepFacts s (s.set i h') op r :=
-  ⟨hi.set i h' hu hp, by intro l c h; rw [ha] at h; simp at h, fun _ => rfl, fun _ _ => rfl⟩
+  ⟨hi.set i h' hu hp, by intro l c h; rw [ha] at h; simp at h, by intro l c i p h; rw [ha] at h; simp at h, fun _ => rfl, fun _ _ => rfl⟩
 
 theorem facts_refl {s : Sys} (hi : Inv s) (op : Op) (r : Resp) (ha : ackOf s op r = none) : StepFacts s s op r :=
-  ⟨hi, by intro l c h; rw [ha] at h; simp at h, fun _ => rfl, fun _ _ => rfl⟩
+  ⟨hi, by intro l c h; rw [ha] at h; simp at h, by intro l c i p h; rw [ha] at h; simp at h, fun _ => rfl, fun _ _ => rfl⟩
 
 theorem rebase_wf {s : Sys} (hi : Inv s) (h : Handle) (hu : h.upstream.WF) : (h.rebase s.disk).1.upstream.WF := by
   rcases rebase_cases s.disk h with e | ⟨m, hm, e, _⟩
